@@ -183,6 +183,7 @@ ACTS = {
     'VarInfFixed.infect': ['CCL INFECTED', 'OCC', 'HIT', 'POSTL T SIR.remove'],
     'Isolate.isolate': ['CCL REMOVED'],                                                 # a user process acting on a sibling's locus (simprofiles.Isolate)       # a user process of the harness (simprofiles.VarInfFixed)
     'Monitor.observe': ['OBSERVE'],
+    'Census.observe': [],           # a user process that also looks at the network every so often (changes nothing)
     'AddDelete.add': ['ADADD'], 'AddDelete.delete': ['ADDEL'],
     'SIvR.infect': ['SIVR'], 'SIvR.remove': ['CCL REMOVED', 'PLEAVE INFECTED_V', 'PLEAVE INFECTED_N'], 'Vaccinate.vaccinate': ['VACC'],
 }
@@ -231,12 +232,12 @@ class ScriptProc(CompartmentedModel):
     def mk(self, h):
         proc = self
 
-        class H:
-            qn = f'h{h}'
-
-            def __call__(s, t, e):
-                proc.run_acts(proc.spec['handlers'][h][1], t, e)
-        return H()
+        # a plain function, and every handler of every scripted process is called `handler`: event functions are told apart by what they
+        # are, not by what they are called
+        def handler(t, e):
+            proc.run_acts(proc.spec['handlers'][h][1], t, e)
+        handler.qn = f'h{h}'
+        return handler
 
     def api(self, a, t, e):
         """one scripted API call; `e` is the element of the current event"""
@@ -397,7 +398,7 @@ class Extract:
             else: raise ValueError(a)
         if rep:
             acts.append(f"POSTE {fb(cells['dt'])} {self.hnames.index(key)}")
-        kind = 'E' if qn in EDGE_HANDLERS else ('X' if qn.startswith('Monitor.') else 'N')
+        kind = 'E' if qn in EDGE_HANDLERS else ('X' if qn.startswith('Monitor.') or qn.startswith('Census.') else 'N')
         self.hkind[key] = kind
         return f"HANDLER {key} {kind} " + ' ; '.join(acts)
 
@@ -909,9 +910,9 @@ def run_case(case):
         # set-up steps in the order the real code performs them: every build, then every setUp
         setup = []
         for p in ex.leaves:          # events posted by build(): before every setUp
-            if isinstance(p, Monitor):
+            if isinstance(p, Monitor) or getattr(p, 'VP_BUILDPOST', False):
                 ev = [e for e in d._postedEvents if e[2] is p][0]
-                setup.append(f"S_POST {fb(0.0)} 0 0 {ex.hid(ev[3].__closure__[0].cell_contents if False else _thunk_ef(ev[3]))}")
+                setup.append(f"S_POST {fb(ev[0])} 0 0 {ex.hid(_thunk_ef(ev[3]))}")
         for p in ex.leaves:
             if isinstance(p, CompartmentedModel):
                 i = ex.inst[id(p)]; ci = ex.cidx[id(p)]
